@@ -32,12 +32,16 @@ for _n, _tmpl, _q in (('text/any line', '[assert]\ncontents -rel-home one.txt : 
                       ('files/every file', '[setup]\ndir d\nfile d/f\n[assert]\ndir-contents d : %s\n', 'every file :')):
     HOSTS[_n] = (_tmpl, dict(_CONST, Q=_q), {})
 QUANT_HOSTS = [h for h in HOSTS if '/' in h]
+# `-transformed-by TRANSFORMER MATCHER`: the operand is a simple expression, applied to the transformed text; the text
+# is "only line": T holds of the original only, F of the upper-case text only
+HOSTS['text+transformed-by'] = ('[assert]\ncontents -rel-home one.txt : %s\n',
+                                {'T': "matches 'o'", 'F': "matches 'O'", 'Q': '-transformed-by char-case -to-upper'}, {})
 EXP = {'T': ('PASS', 0), 'F': ('FAIL', 32), 'ERR': ('SYNTAX_ERROR', 65)}
 
 
-def cfg(mode, max_tokens, invariants, quant=False, deviations=()):
-    return ('SPECIFICATION Spec\nCONSTANTS MaxTokens = %d\n Mode = "%s"\n Quant = %s\n Deviations = {%s}\n'
-            % (max_tokens, mode, 'TRUE' if quant else 'FALSE', ', '.join('"%s"' % d for d in deviations))
+def cfg(mode, max_tokens, invariants, quant=False, deviations=(), qsem='one'):
+    return ('SPECIFICATION Spec\nCONSTANTS MaxTokens = %d\n Mode = "%s"\n Quant = %s\n Deviations = {%s}\n QSem = "%s"\n'
+            % (max_tokens, mode, 'TRUE' if quant else 'FALSE', ', '.join('"%s"' % d for d in deviations), qsem)
             + ''.join('INVARIANT %s\n' % i for i in invariants) + 'CHECK_DEADLOCK FALSE\n')
 
 
@@ -150,7 +154,7 @@ def run(ctx):
     malformed = [c for c in strings if acceptable(c) == {'ERR'}]
     with ctx.pool() as pool:
         for host in HOSTS:
-            if host in QUANT_HOSTS:
+            if host in QUANT_HOSTS or host == 'text+transformed-by':
                 continue
             mal = (malformed if host == 'integer' and not quick else
                    rnd.sample(malformed, min(len(malformed), (8000 if host == 'integer' else 1500) if quick else 40000)))
@@ -184,6 +188,17 @@ def run(ctx):
             w = qwell if not quick else rnd.sample(qwell, min(len(qwell), 1500))
             run_host(ctx, pool, host, w + rnd.sample(qmal, min(len(qmal), 500 if quick else 10000)),
                      'strings with quantifiers <= %d' % lq)
+        # `-transformed-by T` is a prefix too: its operand is a simple expression, evaluated on the transformed text
+        et = ctx.tlc('ExprGrammarExport', cfg('strings', lq, ['ExportStrings'], quant=True, qsem='ctx'), workers=1,
+                     name='export-transformed-by', count=True, timeout=3000)
+        tsx = [c for c in et.printed_json('STR') if 'Q' in c['ts']]
+        twell = [c for c in tsx if acceptable(c) != {'ERR'}]
+        tmal = [c for c in tsx if acceptable(c) == {'ERR'}]
+        if len(twell) < 50:
+            raise core.MachineryFailure('no -transformed-by strings')
+        run_host(ctx, pool, 'text+transformed-by',
+                 (twell if not quick else rnd.sample(twell, min(len(twell), 2500)))
+                 + rnd.sample(tmal, min(len(tmal), 500 if quick else 10000)), 'strings with -transformed-by <= %d' % lq)
         # laziness
         lz = lazy_cases(trees)
         if quick:
